@@ -14,16 +14,17 @@ RULE = (
     "A case is a list of <= 12 model-building calls on one fresh problem: add_fluent(default_initial_value=v), "
     "Problem(initial_defaults={type: v}) + add_fluent, set_initial_value, add_effect / add_increase_effect / "
     "add_decrease_effect on an action, add_timed_effect on the problem, ActionInstance(action, params); targets of type "
-    "Boolean, int[0,5], int, real[0,5], user types A, B<A, C; values of every type (Booleans, ints in/out of bounds, rationals, "
+    "Boolean, int[0,5], int, real[0,5], half-bounded int[0,inf) / int(-inf,5] / real[1/2,inf), user types A, B<A, C and D<E (unknown to the problem until used); values of every type (Booleans, ints in/out of bounds, rationals, "
     "objects of the same / sub / super / unrelated type, fluent expressions, parameters, compound expressions).  Clearly "
     "compatible calls must succeed, clearly incompatible or non-constant-initial-value calls must raise and leave the model "
-    "unchanged; partially overlapping numeric types are abstained.  After every accepted call all stored initial values and "
+    "(fluents, defaults, initial values, effects, user types, names) unchanged; partially overlapping numeric types are abstained.  After every accepted call all stored initial values and "
     "defaults are re-checked.  Non-trivial = call with a clearly incompatible or non-constant value; distinct by (call kind, "
     "target type, value)."
 )
 SHARDS = {"quick": 8, "thorough": 16}
 
-TARGET_TYPES = ["bool", "int05", "int", "real05", "A", "B", "C"]
+TARGET_TYPES = ["bool", "int05", "int", "real05", "A", "B", "C", "int0up", "intdown5", "realhalfup", "D"]
+BOUNDS = {"int05": (0, 5), "real05": (0, 5), "int0up": (0, None), "intdown5": (None, 5), "realhalfup": (Fraction(1, 2), None), "int": (None, None)}
 NVALUES = 21
 KINDS = ["default", "type_default", "init", "effect", "inc", "dec", "timed", "instance"]
 
@@ -39,7 +40,13 @@ class W:
         self.A = tm.UserType("A")
         self.B = tm.UserType("B", self.A)
         self.C = tm.UserType("C")
-        self.types = {"bool": tm.BoolType(), "int05": tm.IntType(0, 5), "int": tm.IntType(), "real05": tm.RealType(Fraction(0), Fraction(5)), "A": self.A, "B": self.B, "C": self.C}
+        # D (child of E) has no object: the problem does not know these two types until a fluent of type D is added
+        self.E = tm.UserType("E")
+        self.D = tm.UserType("D", self.E)
+        self.types = {
+            "bool": tm.BoolType(), "int05": tm.IntType(0, 5), "int": tm.IntType(), "real05": tm.RealType(Fraction(0), Fraction(5)), "A": self.A, "B": self.B, "C": self.C,
+            "int0up": tm.IntType(0, None), "intdown5": tm.IntType(None, 5), "realhalfup": tm.RealType(Fraction(1, 2), None), "D": self.D,
+        }
         self.type_default_error = None
         tdefs = {}
         for tname, vi in type_defaults:
@@ -94,6 +101,8 @@ def classify(target, vdesc):
     base = vdesc[0]
     if target == "bool":
         return "ok" if base == "bool" else "bad"
+    if target == "D":
+        return "bad"  # no generated value has type D or a subtype of it
     if target in ("A", "B", "C"):
         if base != "obj":
             return "bad"
@@ -104,14 +113,12 @@ def classify(target, vdesc):
     if base != "num":
         return "bad"
     _, lo, hi, integral = vdesc
-    if target in ("int05", "int") and not integral:
+    if target.startswith("int") and not integral:
         return "bad"
-    if target == "int":
+    tlo, thi = BOUNDS[target]
+    if (tlo is None or lo >= tlo) and (thi is None or hi <= thi):
         return "ok"
-    tlo, thi = Fraction(0), Fraction(5)
-    if lo >= tlo and hi <= thi:
-        return "ok"
-    if hi < tlo or lo > thi:
+    if (tlo is not None and hi < tlo) or (thi is not None and lo > thi):
         return "bad"
     return "partial"
 
@@ -120,6 +127,8 @@ def snapshot(w, action):
     p = w.problem
     return (
         tuple(sorted((f.name, str(f.type)) for f in p.fluents)),
+        tuple(sorted(t.name for t in p.user_types)),
+        tuple(n for n in ("A", "B", "C", "D", "E") if p.has_name(n)),
         tuple(sorted((f.name, str(v)) for f, v in p.fluents_defaults.items())),
         tuple(sorted((str(k), str(v)) for k, v in p.explicit_initial_values.items())),
         tuple(map(repr, action.effects)),
@@ -215,7 +224,7 @@ def run(ctx, case):
                 expected = cls if const else "bad"
                 call = lambda: p.set_initial_value(em.FluentExp(f), v)
             elif kind in ("effect", "inc", "dec"):
-                if kind != "effect" and tname not in ("int05", "int", "real05"):
+                if kind != "effect" and tname not in BOUNDS:
                     continue
                 f = get_fluent(tname)
                 before = snapshot(w, action)
